@@ -282,6 +282,12 @@ impl StateRestorer {
                         self.max_worker_id = self.max_worker_id.max(worker_id.as_num());
                     }
                     if let Some(job) = self.jobs.get_mut(&task_id.job_id()) {
+                        // A restarted task keeps the crashes counted so far
+                        let crash_counter = job
+                            .tasks
+                            .get(&task_id.job_task_id())
+                            .map(|t| t.crash_counter)
+                            .unwrap_or(0);
                         job.tasks.insert(
                             task_id.job_task_id(),
                             RestorerTaskInfo {
@@ -294,7 +300,7 @@ impl StateRestorer {
                                     },
                                 },
                                 instance_id: Some(instance_id),
-                                crash_counter: 0,
+                                crash_counter,
                             },
                         );
                     }
